@@ -28,9 +28,9 @@ type c07Case struct {
 }
 
 var (
-	c07DelayMu   sync.Mutex
-	c07Delays    = map[time.Duration]int{}
-	c07DelaysN   int
+	c07DelayMu sync.Mutex
+	c07Delays  = map[time.Duration]int{}
+	c07DelaysN int
 )
 
 func c07Oracle(c c07Case, r *advResult, k *verifkit.Kit) error {
@@ -325,6 +325,10 @@ func c07Gen(t *rapid.T) c07Case {
 		default:
 			sc.Events = append(sc.Events, advEvent{AtNS: at, Kind: "rs", From: rapid.SampledFrom(c07Sources).Draw(t, "src"),
 				SLLA: rapid.Bool().Draw(t, "slla"), N: rapid.SampledFrom([]int{1, 1, 1, 1, 2, 5, 40}).Draw(t, "burst")})
+			if e := &sc.Events[len(sc.Events)-1]; rapid.IntRange(0, 3).Draw(t, "crowd") == 0 {
+				// a busy link: every solicitation of the burst from another host, now and then a few hundred of them
+				e.Crowd, e.N = true, rapid.SampledFrom([]int{2, 5, 40, 70, 300}).Draw(t, "crowdn")
+			}
 		}
 	}
 	sc.StopNS = at + rapid.Int64Range(0, 5*s).Draw(t, "tail")
